@@ -74,9 +74,12 @@ pub fn literal<'a>() -> impl Parser<'a, &'a str, Literal, Err<'a>> + Clone {
         let string1 = make_string("\"");
         let string2 = make_string("'");
 
-        let bool = op("true")
+        // whole words only: `trueish` is an identifier (an enum variant), not `true` followed by `ish`
+        let ident_tail = any::<_, Err>().filter(|c: &char| c.is_ascii_alphanumeric() || *c == '_');
+        let word = move |w| just(w).then_ignore(ident_tail.clone().not()).padded();
+        let bool = word("true")
             .to(Literal::Bool(true))
-            .or(op("false").to(Literal::Bool(false)));
+            .or(word("false").to(Literal::Bool(false)));
 
         let enum_variant = rust_identifier()
             .then(literal.clone().delimited_by(op("("), op(")")).or_not())
